@@ -39,7 +39,7 @@ func ToNumber(v Value) (int64, float64, NumberType) {
 		return 0, v.AsFloat(), IsFloat
 	case string:
 		s := v.AsString()
-		return StringToNumber(strings.TrimSpace(s))
+		return StringToNumber(s)
 	}
 	return 0, 0, NaN
 }
@@ -54,7 +54,7 @@ func ToNumberValue(v Value) (Value, NumberType) {
 		return v, IsFloat
 	}
 	if s, ok := v.TryString(); ok {
-		n, f, tp := StringToNumber(strings.TrimSpace(s))
+		n, f, tp := StringToNumber(s)
 		switch tp {
 		case IsInt:
 			return IntValue(n), IsInt
@@ -137,22 +137,91 @@ func stringToInt(s string) (int64, NumberType) {
 	return 0, NaN
 }
 
+// luaSpaces is the set of characters that Lua considers to be whitespace.
+const luaSpaces = " \t\n\v\f\r"
+
+// scanNumeral checks that s is made of an optional sign followed by a numeral
+// as defined by the Lua lexer and nothing else.  If so it returns ok = true and
+// whether the numeral is hexadecimal and whether it denotes a float (i.e. it
+// has a radix point or an exponent).  This must be checked before handing over
+// s to the functions of strconv as they are more lenient than Lua (e.g. they
+// accept underscores between digits).
+func scanNumeral(s string) (isHex, isFloat, ok bool) {
+	var (
+		i       = 0
+		isDigit = isDecDigit
+		expChar = byte('e')
+	)
+	if i < len(s) && (s[i] == '+' || s[i] == '-') {
+		i++
+	}
+	if i+1 < len(s) && s[i] == '0' && (s[i+1] == 'x' || s[i+1] == 'X') {
+		i += 2
+		isHex = true
+		isDigit = isHexDigit
+		expChar = 'p'
+	}
+	// Mantissa: it must have at least one digit
+	j := skipDigits(s, i, isDigit)
+	nDigits := j - i
+	i = j
+	if i < len(s) && s[i] == '.' {
+		isFloat = true
+		j = skipDigits(s, i+1, isDigit)
+		nDigits += j - i - 1
+		i = j
+	}
+	if nDigits == 0 {
+		return
+	}
+	// Exponent: an optional sign then at least one decimal digit
+	if i < len(s) && s[i]|0x20 == expChar {
+		isFloat = true
+		i++
+		if i < len(s) && (s[i] == '+' || s[i] == '-') {
+			i++
+		}
+		j = skipDigits(s, i, isDecDigit)
+		if j == i {
+			return
+		}
+		i = j
+	}
+	ok = i == len(s)
+	return
+}
+
+func isDecDigit(c byte) bool {
+	return '0' <= c && c <= '9'
+}
+
+func isHexDigit(c byte) bool {
+	return '0' <= c && c <= '9' || 'a' <= c && c <= 'f' || 'A' <= c && c <= 'F'
+}
+
+// skipDigits returns the index of the first byte of s from i on which is not a
+// digit.
+func skipDigits(s string, i int, isDigit func(byte) bool) int {
+	for i < len(s) && isDigit(s[i]) {
+		i++
+	}
+	return i
+}
+
 func StringToNumber(s string) (n int64, f float64, tp NumberType) {
-	s = strings.TrimSpace(s)
+	s = strings.Trim(s, luaSpaces)
 	var err error
-	if len(s) == 0 {
+	isHex, isFloat, ok := scanNumeral(s)
+	if !ok {
 		tp = NaN
 		return
 	}
 	var i0 = 0
-	// If the string starts with -?0[xX] then it may be an hex number
 	if s[0] == '+' {
 		s = s[1:]
-	} else if s[0] == '-' || s[0] == '+' {
+	} else if s[0] == '-' {
 		i0++
 	}
-	var isHex = len(s) >= 2+i0 && s[i0] == '0' && (s[i0+1] == 'x' || s[i0+1] == 'X')
-	var isFloat = isHex && strings.ContainsAny(s, ".pP") || !isHex && strings.ContainsAny(s, ".eE")
 	if isFloat {
 		// This is to make strconv.ParseFloat happy
 		if isHex && !strings.ContainsAny(s, "pP") {
